@@ -76,8 +76,9 @@ Close(x) ==
   /\ IF Kind = "inproc"
      THEN /\ closed' = [s \in Side |-> TRUE] /\ q' = [q EXCEPT ![x] = <<>>]
           /\ obs' = Append(obs, Ev("close", x, "ok"))
-     ELSE /\ (Open(x) => q[x] = <<>>)            \* see the header: not generated
-          /\ IF Open(x) THEN closed' = [closed EXCEPT ![x] = TRUE] /\ obs' = Append(obs, Ev("close", x, "ok"))
+     ELSE /\ (~closed[x] => q[x] = <<>>)         \* see the header: not generated
+          \* (also after the end of the stream: the connection is still to be released)
+          /\ IF ~closed[x] THEN closed' = [closed EXCEPT ![x] = TRUE] /\ obs' = Append(obs, Ev("close", x, "ok"))
              ELSE UNCHANGED closed /\ obs' = Append(obs, Ev("close", x, "err"))
           /\ UNCHANGED q
   /\ UNCHANGED <<eof, rpois, nsent>>
